@@ -2,7 +2,7 @@
 # confirm_mut.sh <dir>  — confirm a seeded change in its scratch worktree <dir>/wt (target <dir>/target):
 #   demo fails with the change, passes without it, and the repository's pinned suite passes with the change.
 D=$1; cd $D/wt || exit 2
-export CARGO_NET_OFFLINE=true CARGO_TARGET_DIR=$D/target
+export CARGO_NET_OFFLINE=true CARGO_PROFILE_DEV_DEBUG=0 CARGO_PROFILE_TEST_DEBUG=0 CARGO_TARGET_DIR=$D/target
 L=$D/confirm.log; : > $L
 git diff HEAD -- src > $D/out/patch.confirm.diff
 if ! cmp -s $D/out/patch.confirm.diff $D/out/patch.diff; then echo "NOTE: worktree src diff differs from out/patch.diff; resetting src to patch.diff" >> $L; git checkout -- src; git apply $D/out/patch.diff || { echo "patch does not apply" >> $L; exit 2; }; fi
